@@ -39,15 +39,22 @@ EXHAUSTIVE_NOTE = 'all layouts over {floor, obstacle, wall, exit} of grids 1x1..
 REQUIRED = {'quick': {'obstacles.layouts': 2000, 'obstacles.outcomes': 10000, 'obstacles.completeness': 1500,
                       'teleport.layouts': 1000, 'teleport.with_partner': 300, 'teleport.unpaired': 100,
                       'teleport.not_on_pod': 300, 'seeded.obstacles': 1000, 'seeded.teleport': 300,
-                      'history.obstacle_calls': 500}}
+                      'history.obstacle_calls': 500, 'palette_layouts': 200}}
 
 N4 = ((-1, 0), (1, 0), (0, -1), (0, 1))
 MAKERS = {'.': Floor, 'o': MovingObstacle, '#': Wall, 'E': Exit, 'k': lambda: Key(Color.RED),
           'R': lambda: Telepod(Color.RED), 'B': lambda: Telepod(Color.BLUE), 'G': lambda: Telepod(Color.GREEN)}
 
 
+SHARED = [False]
+
+
 def build(layout, agent=(0, 0, Orientation.F)):
-    rows = [[MAKERS[c]() for c in row] for row in layout]
+    if SHARED[0]:  # palette: one instance per symbol, referenced from every cell showing it (unusual but legal input)
+        palette = {c: MAKERS[c]() for row in layout for c in row if c not in '.'}
+        rows = [[palette[c] if c in palette else MAKERS[c]() for c in row] for row in layout]
+    else:
+        rows = [[MAKERS[c]() for c in row] for row in layout]
     return State(Grid(rows), Agent(Position(agent[0], agent[1]), agent[2]))
 
 
@@ -406,7 +413,7 @@ def run(ctx):
                     break
                 obstacle_layout_case(ctx, layout)
         # random larger layouts, all outcomes (bounded)
-        for k in range(ctx.pick(600, 40000)):
+        for k in range(ctx.pick(3000, 40000)):
             rng = gen.rng_for('C11rand', ctx.seed, ctx.shard, k)
             layout = rand_layout(rng, 5, 5, '.o#Ek', [5, 2, 1, 1, 1], 4)
             if any('o' in row for row in layout):
@@ -422,13 +429,25 @@ def run(ctx):
                     teleport_case(ctx, layout, (y, x, gen.ORIENTATIONS[(idx + x) % 4]), action)
             if idx % 211 == 0:
                 ctx.sample('telepod_layout', {'layout': [''.join(r) for r in layout]})
-        for k in range(ctx.pick(100, 10000)):
+        for k in range(ctx.pick(400, 10000)):
+            SHARED[0] = (k % 3 == 2)
+            if SHARED[0]:
+                ctx.hit('palette_layouts')
             rng = gen.rng_for('C11tp', ctx.seed, ctx.shard, k)
             layout = rand_layout(rng, 4, 4, '.RBG#', [5, 2, 2, 2, 1], 5, o='R')
             h, w = len(layout), len(layout[0])
             for action in Action:
                 teleport_case(ctx, layout, (rng.randrange(h), rng.randrange(w), rng.choice(gen.ORIENTATIONS)), action)
-        seeded(ctx, ctx.pick(1500, 300000))
+        SHARED[0] = False
+        for k in range(ctx.pick(300, 3000)):  # obstacle layouts from a palette too
+            SHARED[0] = True
+            rng = gen.rng_for('C11pal', ctx.seed, ctx.shard, k)
+            layout = rand_layout(rng, 4, 4, '.o#Ek', [5, 3, 1, 1, 1], 4)
+            if any('o' in row for row in layout):
+                ctx.hit('palette_layouts')
+                obstacle_layout_case(ctx, layout, rng.choice(list(Action)), limit=3000)
+        SHARED[0] = False
+        seeded(ctx, ctx.pick(6000, 300000))
         with Patch() as patch:
             install_history_hooks(ctx, patch)
             dyndrive.shipped_histories(ctx, 'C11hist', ['dynamic_obstacles', 'teleport'], ctx.pick(2, 40),
@@ -454,7 +473,10 @@ def replay(ctx, kind, payload):
     elif kind == 'teleport_case':
         layout = tuple(tuple(r) for r in payload['layout'])
         a = payload['agent']
-        teleport_case(ctx, layout, (a[0], a[1], Orientation[a[2]]), Action[payload['action']])
+        for shared in (False, True):
+            SHARED[0] = shared
+            teleport_case(ctx, layout, (a[0], a[1], Orientation[a[2]]), Action[payload['action']])
+        SHARED[0] = False
     elif kind == 'teleport_state':
         with Patch() as patch:
             install_history_hooks(ctx, patch)
